@@ -230,10 +230,10 @@ Section Transparency.
   (* ---- the common shape of a step ---- *)
   Lemma guarded_lazy {A} s i (q : idx -> res A) : ok i ->
     guarded E s i q = (load_where E s i, q (load_where E s i)).
-  Proof. intros H. unfold guarded. now rewrite ok_no_fail. Qed.
+  Proof. intros H. unfold guarded. now rewrite ok_not_blocked. Qed.
   Lemma guarded_full {A} s i (q : idx -> res A) : ok i -> guarded E s (F i) q = (F i, q (F i)).
   Proof.
-    intros H. unfold guarded. rewrite ok_no_fail by now apply ok_load_where.
+    intros H. unfold guarded. rewrite ok_not_blocked by now apply ok_load_where.
     now rewrite load_where_full.
   Qed.
 
@@ -414,7 +414,7 @@ Section Transparency.
     (F i, if negb (is_node (F i) p) then Err E_KEY else items_q p false (F i)).
   Proof.
     intros Hok. unfold items_step.
-    rewrite (ok_no_fail E _ (F i) (ok_load_where E s_all i Hok)).
+    rewrite (ok_not_blocked E _ (F i) (ok_load_where E s_all i Hok)).
     rewrite (load_where_full E _ i Hok).
     destruct (negb (is_node (F i) p)); [reflexivity|].
     now rewrite guarded_full.
@@ -423,7 +423,7 @@ Section Transparency.
   Lemma items_sim p : sim (fun i => items_step E i p false).
   Proof.
     intros i Hok Hwf. rewrite items_full by assumption. simpl.
-    unfold items_step. rewrite (ok_no_fail E _ i Hok).
+    unfold items_step. rewrite (ok_not_blocked E _ i Hok).
     set (s1 := match p with [] => s_none | _ :: _ => s_lp i p end).
     assert (NSP (load_where E s1 i) p) as N1.
     { subst s1. destruct p; [apply NSP_nil | now apply lp_post]. }
